@@ -815,3 +815,228 @@ def c13(run):
         txt = bytes(sc["text"]).decode("latin1")
         ty = next((w for w in txt.upper().split() if w in synthgen.TYPES), "?")
         run.violation("synth:%s|%s" % (ty, _re.sub(r"\d+", "N", str(why))[:140]), why + " | text: " + txt[:120], sc)
+
+
+# ------------------------------------------------------------------------------------------------
+# C15: the C function table
+
+CDRIVE = os.path.join(vlib.HARNESS, "target", "cdrive")
+
+
+def build_cdrive():
+    """Compiles the C driver against the header shipped with the library.  Returns "" or the
+    compiler's complaint (a prototype of the header that cannot be used as the table is meant
+    to be used is a C15 violation, not a tool error)."""
+    import subprocess
+    cmd = ["cc", "-O1", "-g", "-Wall", "-Werror=int-conversion", "-Werror=incompatible-pointer-types", "-Werror=implicit-function-declaration",
+           "-I", "/repo/src/bin/c_hook", "-o", CDRIVE, os.path.join(vlib.HARNESS, "cdrive.c"),
+           os.path.join(vlib.HARNESS, "target", "debug", "libvharness.a"), "-lpthread", "-ldl", "-lm"]
+    r = subprocess.run(cmd, stdout=subprocess.PIPE, stderr=subprocess.STDOUT, text=True)
+    if r.returncode != 0:
+        errs = [l for l in r.stdout.splitlines() if "error" in l]
+        if any("c_hook.h" in l or "T->" in l or "FnTable" in l or "member" in l for l in r.stdout.splitlines()):
+            return (errs or [r.stdout[-300:]])[0][:300]
+        raise ToolError("cannot build cdrive: " + r.stdout[-1500:])
+    return ""
+
+
+def run_cdrive(scripts, valgrind=False):
+    """Runs scripts through the C driver; returns one list of event lines per script; a script that
+    kills the driver gets a final {"k":"cdied"} marker and the driver is restarted after it."""
+    import subprocess
+    groups = []
+    i = 0
+    vg_errors = ""
+    while i < len(scripts):
+        text = "\n".join("\n".join(s) for s in scripts[i:]) + "\n"
+        cmd = [CDRIVE]
+        if valgrind:
+            cmd = ["valgrind", "-q", "--error-exitcode=97", "--leak-check=no", "--track-origins=no", CDRIVE]
+        p = subprocess.run(cmd, input=text, stdout=subprocess.PIPE, stderr=subprocess.PIPE, text=True, timeout=3600)
+        cur, done = [], []
+        for l in p.stdout.splitlines():
+            if l == "#":
+                done.append(cur)
+                cur = []
+            elif l:
+                cur.append(l)
+        groups.extend(done)
+        i += len(done)
+        if valgrind and p.returncode == 97:
+            vg_errors = p.stderr[-1500:]
+        if len(done) == len(scripts) - (i - len(done)) and p.returncode in (0, 97):
+            break
+        if i >= len(scripts):
+            break
+        groups.append(cur + ['{"k":"cdied","rc":%d}' % p.returncode])
+        i += 1
+    return groups, vg_errors
+
+
+@check("C15")
+def c15(run):
+    import cscript
+    run.assumptions += ["the C driver is compiled against /repo/src/bin/c_hook/c_hook.h and calls every entry by the header's field names; agreement between the Rust struct and the header (order, count, signatures) is established by calling through it, and by abi_version being the last field",
+                        "every out-buffer is malloc'ed at its documented size, pre-filled and surrounded by canaries; the thorough tier repeats the run under valgrind memcheck",
+                        "scripts respect the table's documented preconditions (rr_ip / set_rr_ip only on A / AAAA with the right family, no packet access except through the cursor inside a callback, capacities <= 8192)",
+                        "what each native operation must do is decided by C03-C14; this check decides that the table does the same"]
+    msg = build_cdrive()
+    events = []
+    scripts = cscript.scripts(vlib.seed(), run.tier)
+    if msg:
+        events.append(json.dumps({"k": "compile", "msg": msg}))
+    else:
+        native = vlib.drive_groups([json.dumps({"do": "cscript", "lines": s}, separators=(",", ":")) for s in scripts])
+        cgroups, _ = run_cdrive(scripts)
+        if len(native) != len(scripts) or len(cgroups) != len(scripts):
+            raise ToolError("script executions incomplete: %d native, %d C of %d" % (len(native), len(cgroups), len(scripts)))
+        owner = []
+        for si, (ng, cg) in enumerate(zip(native, cgroups)):
+            for k in range(max(len(ng), len(cg))):
+                n = ng[k] if k < len(ng) else None
+                c = cg[k] if k < len(cg) else None
+                if c is not None and c.startswith('{"k":"cdied"'):
+                    prev = json.loads(ng[k]) if n else {}
+                    events.append(json.dumps({"k": "cdied", "op": prev.get("op", "?")}))
+                    owner.append(si)
+                    break
+                if c is not None and '"op":"abi"' in c:
+                    events.append(json.dumps({"k": "abi"}))
+                    owner.append(si)
+                    break
+                if n is None or c is None:
+                    events.append(json.dumps({"k": "missing", "op": json.loads(n or c).get("op", "?")}))
+                    owner.append(si)
+                    break
+                if '"op":"pkt"' in n:
+                    continue
+                events.append('{"k":"pair","c":%s,"native":%s}' % (c, n))
+                owner.append(si)
+        if not quick(run):
+            sub = scripts[:len(histgen.base_packets()) + 3] + scripts[-150:]
+            _, vg = run_cdrive(sub, valgrind=True)
+            run.cov["valgrind_scripts"] = len(sub)
+            if vg:
+                events.append(json.dumps({"k": "valgrind", "msg": vg[-400:]}))
+                owner.append(0)
+    path = os.path.join(run.wd, "cabi.ndjson")
+    with open(path, "w") as f:
+        for e in events:
+            f.write(e + "\n")
+    bad, out = vlib.validate(path, "Trace_CAbi", "Trace_CAbi_C15.cfg", run.wd, len(events), {"VIOLATION-C15"})
+    facts = collections.Counter()
+    for _, ln, txt in vlib.event_prints(out, "FACT"):
+        op, ret = txt.split("|")
+        facts[op] += 1
+        if ret == "-1":
+            facts[op + ":failed"] += 1
+    run.cov["evaluations"] += len(events)
+    run.cov["scripts"] = len(scripts)
+    run.cov["traces_validated_against_impl"] += len(events) - len(bad)
+    run.cov["operations_by_entry_group"] = dict(facts)
+    run.cov["distinct_nontrivial"] = sum(v for k, v in facts.items() if k in ("iter", "add", "rename", "raw_packet", "question", "namefromstr"))
+    run.cov["rule"] = "paired (C table, native) executions of one scripted operation; non-trivial = the entry takes an out-buffer, a callback or can fail"
+    run.cov["samples"] = [vlib.shorten(e, 700) for e in vlib.sample(events, 2)] + [vlib.shorten(" ; ".join(scripts[0]), 500)]
+    need = ["iter", "add", "rename", "raw_packet", "question", "namefromstr", "flags", "set_flags", "rcode", "set_rcode", "opcode", "set_opcode"]
+    if not bad and not msg and any(facts.get(k, 0) == 0 for k in need):
+        raise ToolError("vacuous run: some table entries were never exercised: %s" % {k: facts.get(k, 0) for k in need})
+    for ln, (t, why) in sorted(bad.items()):
+        e = json.loads(events[ln - 1])
+        sc = {"script": scripts[owner[ln - 1]] if ln - 1 < len(owner) else [], "event": e if e.get("k") != "pair" else {"op": e["c"].get("op"), "i": e["c"].get("i")}}
+        run.violation("cabi|" + _re.sub(r"\d+", "N", str(why))[:150], why, sc)
+
+
+# ------------------------------------------------------------------------------------------------
+# C16: per-thread error descriptions
+
+@check("C16")
+def c16(run):
+    run.assumptions += ["every interleaving TLC enumerates for 2 threads x (fail, read, fail, read) (70 schedules; thorough also 3 threads x (fail, read, read): 1680) is replayed by a coordinator that releases one thread step at a time through channels (no timing); failing calls differ per thread and per step so that descriptions are distinguishable",
+                        "table entries are called from Rust threads through fn_table(); the slot is the library's thread-local either way"]
+    res, out = run.model("MC_Slots", "MC_Slots.cfg", workers=1)
+    scheds = [("2", ["F", "R", "F", "R"], json.loads(r)) for _, r in vlib.prints(out, "REPLAY")]
+    run.negative_control("MC_Slots", "MC_Slots_neg.cfg", workers=1)
+    if not quick(run):
+        res3, out3 = run.model("MC_Slots", "MC_Slots_3.cfg", workers=1)
+        scheds += [("3", ["F", "R", "R"], json.loads(r)) for _, r in vlib.prints(out3, "REPLAY")]
+    reps = 3 if quick(run) else 2
+    scen = []
+    for n, prog, order in scheds:
+        for _ in range(reps):
+            scen.append(json.dumps({"do": "threads", "n": int(n), "program": prog, "order": order}, separators=(",", ":")))
+    obs, path = vlib.drive(scen, run.wd, "sched")
+    if len(obs) != len(scen):
+        raise ToolError("driver returned %d observations for %d scenarios" % (len(obs), len(scen)))
+    bad, out2 = vlib.validate(path, "Trace_Slots", "Trace_Slots_C16.cfg", run.wd, len(obs), {"VIOLATION-C16"})
+    facts = collections.Counter(txt for _, ln, txt in vlib.event_prints(out2, "FACT"))
+    run.cov["evaluations"] += len(obs)
+    run.cov["schedules_enumerated_by_tlc"] = len(scheds)
+    run.cov["traces_validated_against_impl"] += len(obs) - len(bad)
+    run.cov["distinct_nontrivial"] = facts.get("alternating", 0) // reps
+    run.cov["exhaustive"] = True
+    run.cov["rule"] = "one execution per (schedule, repetition); distinct = schedules; non-trivial = the threads' steps alternate at least twice in a row"
+    run.cov["samples"] = [vlib.shorten(o, 600) for o in vlib.sample(obs, 2)]
+    for ln, (t, why) in sorted(bad.items()):
+        run.violation("slots|" + _re.sub(r"'.*?'", "'..'", str(why))[:120], why, json.loads(scen[ln - 1]))
+
+
+# ------------------------------------------------------------------------------------------------
+# C17: purity
+
+def purity_pool():
+    """calls chosen to make leakage visible: a packet with more than 32 suffixes followed by one
+    that shares its suffixes, equal names at different offsets, rename followed by compress"""
+    H = histgen
+    q = H.name("q", "ex") + [0, 1, 0, 1]
+    many = H.hdr(1, 0x8180, 1, 40, 0, 0) + q
+    for i in range(40):
+        many += H.rr(H.name("h%02d" % i, "zone%d" % (i % 7), "ex"), 1, i, [10, 0, 0, i])
+    share = H.hdr(2, 0x8180, 1, 3, 0, 0) + q + H.rr(H.name("h00", "zone0", "ex"), 1, 1, [1, 1, 1, 1]) + H.rr(H.name("x", "zone1", "ex"), 5, 2, H.name("h01", "zone1", "ex")) + H.rr(H.name("zone0", "ex"), 2, 3, H.name("ns", "zone0", "ex"))
+    shifted = H.hdr(3, 0x8180, 1, 3, 0, 0) + H.name("pad" * 10, "ex") + [0, 1, 0, 1] + H.rr(H.name("h00", "zone0", "ex"), 1, 1, [1, 1, 1, 1]) + H.rr(H.name("x", "zone1", "ex"), 5, 2, H.name("h01", "zone1", "ex")) + H.rr(H.name("zone0", "ex"), 2, 3, H.name("ns", "zone0", "ex"))
+    comp = H.base_packets()[0]
+    bad = comp[:-3]
+    pool = [
+        {"f": "compress", "pkt": many}, {"f": "compress", "pkt": share}, {"f": "compress", "pkt": shifted},
+        {"f": "uncompress", "pkt": comp}, {"f": "uncompress", "pkt": H.base_packets()[2]},
+        {"f": "parse", "pkt": comp}, {"f": "parse", "pkt": bad},
+        {"f": "rename", "pkt": share, "target": H.name("net"), "source": H.name("ex"), "suffix": True},
+        {"f": "rename", "pkt": many, "target": H.name("zone0", "ex"), "source": H.name("zone1", "ex"), "suffix": True},
+        {"f": "rename_obj", "pkt": comp, "target": H.name("a"), "source": H.name("q", "ex"), "suffix": False},
+        {"f": "synth", "pkt": [], "text": "ex. 3 IN SOA n.ex. h.ex. (1 2 3 4 5)"}, {"f": "synth", "pkt": [], "text": "bad text"},
+        {"f": "name", "pkt": [], "text_bytes": H.L("www.example.com")}, {"f": "empty", "pkt": []},
+    ]
+    for i, c in enumerate(pool):
+        c["x"] = i
+    return pool
+
+
+@check("C17")
+def c17(run):
+    run.assumptions += ["histories: every ordered pair (thorough: triple) of calls from a pool of 14, enumerated by TLC and executed back to back on one thread of one process, then the pool executed concurrently on 2, 4 and 8 threads in rotated orders, repeated; outputs are logged in full and TLC keeps a memo across the whole trace",
+                        "for parse the 'output' is the bytes plus every public field of the parsed object; for ParsedPacket::empty() and synth::gen::query() the two id bytes are not compared"]
+    pool = purity_pool()
+    seqs = [json.loads(x) for x in gen_tla(run, "Gen_Hist", "Gen_Hist_purity%d.cfg" % (2 if quick(run) else 3))]
+    scen = []
+    for s in seqs:
+        scen.append(json.dumps({"do": "purity", "threads": 1, "calls": [pool[int(c[1:])] for c in s]}, separators=(",", ":")))
+    for n in (2, 4, 8):
+        for rep in range(5 if quick(run) else 50):
+            scen.append(json.dumps({"do": "purity", "threads": n, "reps": 3, "calls": pool}, separators=(",", ":")))
+    # the sequential histories run in ONE driver process, so state kept in statics or thread-locals would carry over
+    obs, path = vlib.drive(scen, run.wd, "purity", watchdog=120)
+    if len(obs) != len(scen):
+        raise ToolError("driver returned %d observations for %d scenarios" % (len(obs), len(scen)))
+    bad, out = vlib.validate_seq(path, "Purity", "Trace_Purity.cfg", run.wd, len(obs), "VIOLATION-C17")
+    st = vlib.tlc_stats(out)
+    run.cov["states"] = st["distinct"]
+    run.cov["transitions"] = st["generated"]
+    run.cov["evaluations"] += sum(o.count('"f":') for o in obs)
+    run.cov["histories"] = len(scen)
+    run.cov["histories_enumerated_by_tlc"] = len(seqs)
+    run.cov["traces_validated_against_impl"] += len(obs) - len(bad)
+    run.cov["distinct_nontrivial"] = sum(1 for s in seqs if len(s) >= 2) + (len(scen) - len(seqs))
+    run.cov["rule"] = "histories; non-trivial = at least two calls back to back, or concurrent execution"
+    run.cov["samples"] = [vlib.shorten(o, 500) for o in vlib.sample(obs, 2)]
+    for ln, (t, why) in sorted(bad.items()):
+        sc = json.loads(scen[ln - 1])
+        run.violation("purity|" + _re.sub(r"\d+", "N", str(why))[:120], why, {"do": "purity", "threads": sc["threads"], "calls": [[c["f"], c["x"]] for c in sc["calls"]]})
